@@ -5,6 +5,7 @@ package main
 // chosen from the header text.
 
 import (
+	"time"
 	"bytes"
 	"encoding/json"
 	"fmt"
@@ -165,6 +166,94 @@ func checkScale(resp *hResp, name, header string, worker func(<-chan string, cha
 	}
 }
 
+// tool-run: the real main() on a directory of five 2*10^4-bit files (two of them in a sub-directory): the report must
+// have the header and exactly one complete row per file, each value the library value its header column names.
+func checkToolRun(resp *hResp, name string, seed int64) {
+	dir, err := ioutil.TempDir("", "vc-c13-run-")
+	if err != nil {
+		resp.Errors = append(resp.Errors, err.Error())
+		return
+	}
+	defer os.RemoveAll(dir)
+	files := map[string][]byte{}
+	for i, rel := range []string{"a.bin", "b.dat", "c.bin", "sub/d.bin", "sub/e.dat"} {
+		buf := make([]byte, 2500)
+		rand.New(rand.NewSource(seed + int64(100+i))).Read(buf)
+		full := filepath.Join(dir, "in", rel)
+		os.MkdirAll(filepath.Dir(full), 0755)
+		ioutil.WriteFile(full, buf, 0644)
+		files[filepath.Base(rel)] = buf
+	}
+	ioutil.WriteFile(filepath.Join(dir, "in", "notes.txt"), []byte("not a sample"), 0644)
+	oldIn, oldOut, oldN := inputPath, reportPath, NumWorkers
+	defer func() { inputPath, reportPath, NumWorkers = oldIn, oldOut, oldN }()
+	for _, workers := range []int{1, 3} {
+		inputPath, reportPath, NumWorkers = filepath.Join(dir, "in"), filepath.Join(dir, fmt.Sprintf("report%d.csv", workers)), workers
+		done := make(chan interface{}, 1)
+		go func() {
+			defer func() { done <- recover() }()
+			main()
+		}()
+		in := map[string]interface{}{"files": "a.bin b.dat c.bin sub/d.bin sub/e.dat (2500 random bytes each, seeds seed+100..104) + notes.txt", "workers": workers, "seed": seed}
+		select {
+		case p := <-done:
+			if p != nil {
+				resp.Findings = append(resp.Findings, hFinding{name, in, fmt.Sprintf("main panics: %v", p), "a report"})
+				return
+			}
+		case <-time.After(120 * time.Second):
+			resp.Findings = append(resp.Findings, hFinding{name, in, "main does not return within 120 s", "a report"})
+			return
+		}
+		time.Sleep(300 * time.Millisecond) // a writer that is still flushing gets a moment; the report must be complete when main returns
+		b, err := ioutil.ReadFile(reportPath)
+		resp.Cases[name]++
+		if err != nil {
+			resp.Findings = append(resp.Findings, hFinding{name, in, err.Error(), "a report file"})
+			return
+		}
+		lines := strings.Split(strings.TrimRight(string(b), "\n"), "\n")
+		if lines[0]+"\n" != Header_2E4 {
+			resp.Findings = append(resp.Findings, hFinding{name, in, "first line: " + lines[0], "the 2*10^4 header"})
+			return
+		}
+		cols := strings.Split(strings.TrimSuffix(Header_2E4, "\n"), ",")[1:]
+		seen := map[string]bool{}
+		for _, ln := range lines[1:] {
+			fields := strings.Split(strings.TrimSpace(ln), ", ")
+			buf, ok := files[fields[0]]
+			if !ok || seen[fields[0]] || len(fields) != len(cols)+1 {
+				resp.Findings = append(resp.Findings, hFinding{name, in, "row: " + ln, fmt.Sprintf("one row per sample file with %d fields", len(cols)+1)})
+				return
+			}
+			seen[fields[0]] = true
+			bits := randomness.B2bitArr(buf)
+			for j, c := range cols {
+				m := colRe.FindStringSubmatch(strings.TrimSpace(c))
+				if m == nil {
+					continue
+				}
+				want, err := libValue(m[1], m[2], strings.TrimSpace(m[3]), buf, bits)
+				if err != nil {
+					continue
+				}
+				got, _ := strconv.ParseFloat(fields[j+1], 64)
+				resp.Cases[name]++
+				if math.Abs(got-want) > 6e-7 {
+					in["file"] = fields[0]
+					in["column"] = strings.TrimSpace(c)
+					resp.Findings = append(resp.Findings, hFinding{name, in, fmt.Sprintf("%.6f", got), fmt.Sprintf("%.6f (library value for the test and parameter the header names)", want)})
+					return
+				}
+			}
+		}
+		if len(seen) != len(files) {
+			resp.Findings = append(resp.Findings, hFinding{name, in, fmt.Sprintf("%d rows", len(seen)), fmt.Sprintf("%d rows (one per .bin/.dat file)", len(files))})
+			return
+		}
+	}
+}
+
 func TestVerifHarness(t *testing.T) {
 	reqPath := os.Getenv("VERIF_HARNESS_REQ")
 	outPath := os.Getenv("VERIF_HARNESS_OUT")
@@ -183,6 +272,8 @@ func TestVerifHarness(t *testing.T) {
 	resp := &hResp{Cases: map[string]int{}, MaxErr: map[string]float64{}}
 	for _, name := range req.Checks {
 		switch name {
+		case "tool-run":
+			checkToolRun(resp, name, req.Seed)
 		case "columns-2E4":
 			checkScale(resp, name, Header_2E4, worker_2E4, 2500, req.Seed)
 		case "columns-1E6":
